@@ -67,12 +67,19 @@ def run(ctx):
     R.check("C01.0", "TABLE", fs, "group order constant", Nn == N, "SECP256K1_N is not the secp256k1 group order")
     G = (ev.const("bits.ecmath", "SECP256K1_Gx"), ev.const("bits.ecmath", "SECP256K1_Gy"))
 
-    rets = s.returns()
+    rets = [e for e in s.returns() if e.value is not None]  # the implicit `return None` after `while True:` is unreachable
     fin_names = set()
     if len(rets) == 1 and isinstance(rets[0].value, (tuple, list)):
         fin_names = {t.args[0] for t in rets[0].value if isinstance(t, T) and t.op == "loopout"}
-    outer = [lp for lp in s.loops if lp.func == fs.qualname and lp.kind == "while" and lp.depth == 0 and
-             fin_names and fin_names <= set(lp.body)]
+    whiles = [lp for lp in s.loops if lp.func == fs.qualname and lp.kind == "while" and lp.depth == 0]
+    # shape (a): `while not r or not s: ...` then `return (r, s)`; shape (b): `while True: ... if s: return (r, s)`
+    outer = [lp for lp in whiles if fin_names and fin_names <= set(lp.body)]
+    fin_facts = []
+    inloop = False
+    if not outer and len(rets) == 1 and isinstance(rets[0].value, (tuple, list)) and len(rets[0].value) == 2:
+        outer = [lp for lp in whiles if any(e.kind == "return" and isinstance(e.value, (tuple, list)) and len(e.value) == 2 for e in lp.exits)]
+        fin_facts = rules.all_facts(rets[0])
+        inloop = True
     R.check("C01.3", "DOM", fs, "retry loop present", len(outer) == 1, "sign() has no single retry loop producing r and s")
     if len(outer) != 1 or len(rets) != 1 or not isinstance(rets[0].value, (tuple, list)) or len(rets[0].value) != 2:
         R.check("C01.3", "DOM", fs, "returns (r, s)", False, "sign() does not return one (r, s) pair")
@@ -112,7 +119,7 @@ def run(ctx):
             example="the random source returning 0 maps to the public nonce 1")
 
     # ---- r, s per attempt
-    r_body, s_body = lp.body.get(_name_of(lp, r_fin)), lp.body.get(_name_of(lp, s_fin))
+    r_body, s_body = (r_fin, s_fin) if inloop else (lp.body.get(_name_of(lp, r_fin)), lp.body.get(_name_of(lp, s_fin)))
     kg = [t for t in tm.subterms(r_body) if isinstance(t, T) and t.op == "app" and t.args[0] == SMUL]
     want_r = tm.mod(T("proj", (kg[0], 0)), N) if kg and tm.veq(kg[0].args[1][0], knonce) else None
     R.check("C01.4", "TERM-EQ", fs, "r = x(kG) mod N", tm.veq(r_body, want_r), "r: %s" % tm.first_diff(r_body, want_r))
@@ -127,7 +134,7 @@ def run(ctx):
             s0 is not None and tm.contains(s0, lambda t: isinstance(t, T) and t.op == "powmod" and tm.veq(t.args[0], knonce)),
             "s does not divide by the same nonce that produced r")
     # ---- ranges at return
-    riv, siv = ival.ivals(r_fin), ival.ivals(s_fin)
+    riv, siv = ival.ivals(r_fin, fin_facts), ival.ivals(s_fin, fin_facts)
     R.check("C01.3", "INTERVAL", fs, "r in [1, N-1] at return", ival.subset(riv, 1, N - 1), "r value set %s" % _ivs(riv),
             example="x(kG) mod N == 0 must be retried")
     R.check("C01.3", "INTERVAL", fs, "s in [1, N-1] at return", ival.subset(siv, 1, N - 1), "s value set %s" % _ivs(siv),
@@ -175,9 +182,8 @@ def run(ctx):
                     expected=tm.show(want)[:400], found=tm.show(val)[:400])
             # key validation dominates signing
             ret = ss_.returns()
-            kv = bool(ret) and all(rules.exit_has_fact(e, tm.cmp("eq", tm.length(keyb), 32)) and any(
-                tm.contains(f, lambda t: isinstance(t, T) and t.op == "cmp" and t.args[0] == "lt" and tm.veq(t.args[1], tm.b2i(keyb, "big")) and t.args[2] == N)
-                for f in rules.all_facts(e)) for e in ret)
+            kv = bool(ret) and all(rules.exit_has_fact(e, tm.cmp("eq", tm.length(keyb), 32)) and
+                                   ival.subset(ival.ivals(tm.b2i(keyb, "big"), rules.all_facts(e)), 1, N - 1) for e in ret)
             R.check("C01.7", "DOM", fsig, label + ": key validated (32 bytes, 0 < k < N)", kv,
                     "the signing key is not validated before use")
             if given and preimage:
